@@ -113,7 +113,9 @@ def generate(seed, tier="quick"):
     return {"world_seed": seed, "product": spec, "x0": x0, "runs": runs, "vol": vol, "df": r.choice([1.0, 0.9]),
             "drift": r.choice([0.0, 0.0, 0.08, -0.15]), "jitter": r.random() < 0.4,
             "control": (r.choice(["spot_forward", "logspot_forward", "logspot_forward"]) if (kind not in ("multi", "rates", "ntd", "cds", "cdsk") and r.random() < 0.35)
-                        else ("same_underlying_sum" if (kind == "multi" and spec["sub"] in ("performances_rainbow", "logspot", "indicators") and r.random() < 0.6) else None)),
+                        else ("same_underlying_sum" if (kind == "multi" and spec["sub"] in ("performances_rainbow", "logspot", "indicators") and r.random() < 0.6)
+                              # basket default swap with a single-name CDS as control (as the first-to-default benchmark does)
+                              else ("kth_name_cds" if (kind == "ntd" and r.random() < 0.5) else None))),
             "pseed": r.randrange(10 ** 9), "jump_prob": r.choice([0.0, 0.3, 0.6]),
             "env": dict({"cpu_count": 4, "path_cost": 1e-5, "spawn_cost": 1e-4},
                         **({"task_fail_one_in": 3} if (any(x["nproc"] != 1 for x in runs) and r.random() < 0.1) else {}))}
@@ -309,6 +311,14 @@ def execute(wd, sc):
 
         if sc["control"] == "spot_forward":
             cprod = _Prod(payoff_underlying=_Spot(), payoff=_Fwd(strike=0.9 * sc["x0"]), maturity=T)
+        elif sc["control"] == "kth_name_cds":
+            from rpylib.product.payoff import CDS as _CDS1
+            from rpylib.product.underlying import DefaultTimeNthUnderlying as _DTN
+
+            kname = 1 + (spec["index"] % spec["names"])
+            cprod = _Prod(payoff_underlying=_DTN(default_levels=list(spec["default_levels"]), underlying_index=kname),
+                          payoff=_CDS1(recovery_rate=spec["recovery"], spread=spec["spread"], maturity=T, discounting=model_for_cds.df),
+                          maturity=T)
         elif sc["control"] == "same_underlying_sum":
             # control on the SAME underlying type as the priced product: ControlVariates passes the product's underlying
             # value through instead of recomputing it (imply_from_payoff_underlying)
